@@ -134,6 +134,12 @@ def handle : Wire.Handler := fun op a => do
       | some (.doc _ kvs) => Json.mkObj [("doc", Wire.nodeToJson (.cont kvs))]
       | some (.text s) => Json.mkObj [("text", .str s)]
     pure (Json.mkObj [("err", .bool e), ("opened", .bool opened), ("written", wj)])
+  | "resolve" =>
+    -- ValOrRef.Resolve on the data of this moment (the model keeps no state between executions)
+    let data ← getCont a "data"
+    match (← getValOrRef a "v") with
+    | some pv => pure (.str (pv.resolve noRender data))
+    | none => pure .null
   | "decision" =>
     let format ← Wire.getStr a "format"
     let target ← Wire.getStr a "target"
